@@ -15,6 +15,8 @@ pub use bool_type::bool_impl;
 pub use bytes_type::bytes_impl;
 pub use double_type::double_impl;
 pub use duration_type::duration_impl;
+#[cfg(feature = "verif_hooks")]
+pub use duration_type::verif_inner as verif_duration_inner;
 pub use dyn_type::dyn_impl;
 pub use int_type::int_impl;
 pub use string_type::string_impl;
